@@ -78,9 +78,25 @@ type RuleStat struct {
 	Panicked   string `json:"panic,omitempty"`
 }
 
+// UndeclaredAttr collects rule→property attributions outside the rule's registration.
+var UndeclaredAttr = map[string]bool{}
+
 func (c *Ctx) emit(st Status, props []string, construct, fn, pos, detail string, nontrivial bool) {
 	if props == nil {
 		props = c.rule.Props
+	}
+	// an obligation may only be attributed to a property the rule is registered (and therefore
+	// run) for: otherwise `-property X` would silently lack it
+	for _, pr := range props {
+		declared := false
+		for _, d := range c.rule.Props {
+			if d == pr {
+				declared = true
+			}
+		}
+		if !declared {
+			UndeclaredAttr[c.rule.Name+"→"+pr] = true
+		}
 	}
 	key := c.rule.Name + "/" + fn + "/" + construct
 	// distinct instances of one construct in one function: #2, #3 … in source order
